@@ -130,6 +130,7 @@ type Engine struct {
 	AbstractConc bool      // go statements ignored, channels opaque (constructor postconditions only)
 	OwnCheck     bool      // ownership discipline of deep copies (C17)
 	ShareCheck   bool      // sharing discipline of codecs (C18)
+	selectRole   map[int]string // array reads produced by wbyte ("w") / rbyte ("r") in contracts
 	Share        *shareInfo
 	ownAlloc0    *smt.Term // allocation counter at entry
 	quiet        int
@@ -574,4 +575,11 @@ func posOf(prog *ssa.Program, in ssa.Instruction) string {
 		return ""
 	}
 	return fmt.Sprintf("%s:%d", strings.TrimPrefix(p.Filename, "/repo/"), p.Line)
+}
+
+func (e *Engine) markSelectRole(t *smt.Term, role string) {
+	if e.selectRole == nil {
+		e.selectRole = map[int]string{}
+	}
+	e.selectRole[t.ID()] = role
 }
